@@ -63,6 +63,21 @@ EXPLANATION = (
     "`.exprs` (directly, through a local, or in one arm of a conditional "
     "expression) would let the update rewrite that term, which is shared, "
     "hashed and may be used again (reaching definitions, sa.flow may-mode).  "
+    "The rules read booleq.py through a virtual module "
+    "(rules/_util_c12c17c18): methods a term class inherits from a base "
+    "class defined in the file are the class's own (local C3 linearisation), "
+    "and module-local helpers of the constructors - e.g. a classmethod "
+    "`_build(cls, exprs)` returning simplify_exprs(exprs, cls, "
+    "cls._STOP_TERM, cls._SKIP_TERM) - are inlined, class-level constants "
+    "being read through the local MRO (they must be bound once and never "
+    "assigned from outside); simplify_exprs itself is never inlined, it is "
+    "the combinator R17.1 decides.  A helper that cannot be inlined soundly "
+    "(decorated, several non-tail returns, star arguments) leaves the rule "
+    "with a call it does not know: analysis error.  R17.3 runs `Eq` once "
+    "per order of its arguments with every test decided by that order and "
+    "values kept symbolic over the arguments as passed in, so if/elif/else "
+    "with two constructor calls, guard clauses and a conditional swap "
+    "(`if not left > right: left, right = right, left`) are the same thing.  "
     "R17.3 decides the codomain of `_Eq.simplify` (the term itself, a "
     "structurally equal copy, or FALSE) on the returned expressions alone, "
     "before any branch test is interpreted: a different returned term is a "
@@ -82,6 +97,9 @@ ASSUMPTIONS = [
     "the names TRUE/FALSE/_And/_Or denote the module-level objects of "
     "booleq.py inside its functions (no local shadowing; checked)",
     "Solver.solve and the first-approximation machinery are out of scope",
+    "a method inherited from a base class of booleq.py is analysed for "
+    "instances whose class is exactly the inheriting class (_And and _Or "
+    "have no subclasses)",
     "terms are immutable after construction: nothing outside simplify_exprs "
     "updates a term's `.exprs` in place (R17.7 looks at simplify_exprs only); "
     "set operators and set.union/copy return new sets (Python semantics)",
@@ -134,7 +152,7 @@ def _no_shadow(fn, names):
 @rule("R17.1", "C17", floor=8)
 def r17_1(ctx):
   """simplify_exprs is the absorbing/identity/flatten/set/arity combinator."""
-  mod = get_module(ctx, BQ)
+  mod = U.virtual(ctx, BQ, inline=("simplify_exprs",))
   fn = mod.func("simplify_exprs")
   exprs, rtype, stop, skip = _roles(fn)
   sym = S.Sym(mod, fn)
@@ -145,8 +163,7 @@ def r17_1(ctx):
   e = loop.target.id
   if sym.counts.get(e, 0) != 1:
     raise AnalysisError(f"simplify_exprs rebinds the loop variable {e}")
-  acc, init, init_stmt = S.accumulator(mod, fn, loop)
-  final = S.top_level_shape(fn, loop, init_stmt, sym)
+  acc, init, init_stmt, final_stmts = U.combinator_shape(fn, loop, sym)
   actions = S.loop_actions(mod, fn, loop, sym, acc)
   line = loop.lineno
 
@@ -249,23 +266,32 @@ def r17_1(ctx):
             "commutativity of the connective need a set",
             {"name": acc, "init": src(init)})
 
-  # (e) the three arities
-  paths = S.return_paths(mod, fn, sym, exclude=loop)
-  table = S.decide(paths, S.CARD_WORLDS, lambda n: S.card_atom(acc, n))
+  # (e) the three arities: the statements after the loop are run once per
+  # size of the accumulator (tests decided by the size, values symbolic), so
+  # elif chains, guard clauses and hoisted temporaries read the same
+  table = {}
+  for n in S.CARD_WORLDS:
+    env = dict(sym.env_before(final_stmts[0]))
+    tr = U.run_world(final_stmts, env, S.card_atom(acc, n), where="simplify_exprs")
+    if tr.kind != "return":
+      raise AnalysisError(f"simplify_exprs: no return reached with {n} member(s)")
+    table[n] = (tr.stmt, tr.value, tr.tests)
 
-  def final_kind(v):
+  def final_kind(v, n):
     s = src(v)
     if s in (f"{rtype}({acc})", f"{rtype}(frozenset({acc}))", f"{rtype}(set({acc}))"):
       return "connective"
     if s in (f"{acc}.pop()", f"next(iter({acc}))"):
       return "member"
+    if s == f"__only__({acc})":
+      return "member" if n == 1 else "failing unpacking of the members"
     if s == skip:
       return "identity"
     if s == stop:
       return "absorbing"
     raise AnalysisError(f"simplify_exprs: final return value `{s}` not understood")
 
-  got = {n: final_kind(table[n][1]) for n in S.CARD_WORLDS}
+  got = {n: final_kind(table[n][1], n) for n in S.CARD_WORLDS}
   want = {0: "identity", 1: "member", 2: "connective", 3: "connective"}
   names = {0: "empty", 1: "single", 2: "many"}
   for n in (0, 1, 2):
@@ -703,12 +729,35 @@ def _eq_projections(mod, clsname, fn):
   if len(ps) != 2:
     raise AnalysisError(f"{clsname}.__eq__ parameters {ps}")
   me, other = ps
-  rets = [n for n in walk_no_nested(fn) if isinstance(n, ast.Return)]
-  if len(rets) != 1:
-    raise AnalysisError(f"{clsname}.__eq__: {len(rets)} returns")
-  v = rets[0].value
-  conj = v.values if isinstance(v, ast.BoolOp) and isinstance(v.op, ast.And) else [v]
   proj = []
+  body = [s for s in fn.body
+          if not (isinstance(s, ast.Expr) and isinstance(s.value, ast.Constant))]
+  # leading guard clauses `if <other is of another class>: return False`
+  while len(body) > 1 and isinstance(body[0], ast.If) and not body[0].orelse and \
+      len(body[0].body) == 1 and isinstance(body[0].body[0], ast.Return):
+    rv, t, neg = body[0].body[0].value, body[0].test, False
+    if not ((isinstance(rv, ast.Constant) and rv.value is False) or
+            (isinstance(rv, ast.Name) and rv.id == "NotImplemented")):
+      raise AnalysisError(f"{clsname}.__eq__: guard clause returns `{src(rv)}`")
+    while isinstance(t, ast.UnaryOp) and isinstance(t.op, ast.Not):
+      t, neg = t.operand, not neg
+    is_cls = False
+    if isinstance(t, ast.Call) and dotted(t.func) == "isinstance" and \
+        len(t.args) == 2 and src(t.args[0]) == other:
+      is_cls = neg
+    elif isinstance(t, ast.Compare) and len(t.ops) == 1 and \
+        {src(t.left), src(t.comparators[0])} in (
+            {f"type({me})", f"type({other})"}, {f"{me}.__class__", f"{other}.__class__"}):
+      is_cls = isinstance(t.ops[0], (ast.NotEq, ast.IsNot)) != neg
+    if not is_cls:
+      raise AnalysisError(f"{clsname}.__eq__: guard `{src(body[0].test)}` not understood")
+    proj.append("__class__")
+    body = body[1:]
+  rets = [n for n in walk_no_nested(fn) if isinstance(n, ast.Return)]
+  if len(body) != 1 or not isinstance(body[0], ast.Return) or body[0].value is None:
+    raise AnalysisError(f"{clsname}.__eq__: {len(rets)} returns")
+  v = body[0].value
+  conj = v.values if isinstance(v, ast.BoolOp) and isinstance(v.op, ast.And) else [v]
   for c in conj:
     s = src(c)
     if isinstance(c, ast.Compare) and len(c.ops) == 1 and \
@@ -1005,12 +1054,12 @@ def _set_origin(leaf, acc, sym, depth=0):
 def r17_7(ctx):
   """The accumulator of simplify_exprs never aliases a set owned by a term."""
   from sa import flow
-  mod = get_module(ctx, BQ)
+  mod = U.virtual(ctx, BQ, inline=("simplify_exprs",))
   fn = mod.func("simplify_exprs")
   exprs = _roles(fn)[0]
   sym = S.Sym(mod, fn)
   loop = S.single_loop(fn, exprs)
-  acc, _, _ = S.accumulator(mod, fn, loop)
+  acc, _, _, _ = U.combinator_shape(fn, loop, sym)
   # every binding of the accumulator and what it can be bound to
   defs = {}
   for n in walk_no_nested(fn):
@@ -1211,6 +1260,53 @@ VARIANTS = [
              "  if len(expr_set) == 1:\n"
              "    return expr_set.pop()\n"
              "  return result_type(expr_set)\n")},
+    {"name": "twin-benign-C17-r1-guard-clauses", "rule": "R17.1",
+     "patch": "benign/C17-r1/patch.diff", "expect": "silent"},
+    {"name": "twin-hoisted-temporaries-guard-clauses", "rule": "R17.1", "file": BQ,
+     "expect": "silent", "old": _LOOP + _FINAL,
+     "new": ("  absorbing, neutral = stop_term, skip_term\n"
+             "  members = set()\n"
+             "  for e in exprs:\n"
+             "    if e is absorbing:\n"
+             "      return absorbing\n"
+             "    if e is neutral:\n"
+             "      continue\n"
+             "    if isinstance(e, result_type):\n"
+             "      members = members.union(e.exprs)\n"
+             "      continue\n"
+             "    members.add(e)\n"
+             "  if len(members) > 1:\n"
+             "    return result_type(members)\n"
+             "  if members:\n"
+             "    return members.pop()\n"
+             "  return neutral\n")},
+    {"name": "hoisted-temporaries-swapped", "rule": "R17.1", "file": BQ,
+     "expect": "fire", "old": _LOOP + _FINAL,
+     "new": ("  absorbing, neutral = skip_term, stop_term\n"
+             "  members = set()\n"
+             "  for e in exprs:\n"
+             "    if e is absorbing:\n"
+             "      return absorbing\n"
+             "    if e is neutral:\n"
+             "      continue\n"
+             "    if isinstance(e, result_type):\n"
+             "      members = members.union(e.exprs)\n"
+             "      continue\n"
+             "    members.add(e)\n"
+             "  if len(members) > 1:\n"
+             "    return result_type(members)\n"
+             "  if members:\n"
+             "    (only,) = members\n"
+             "    return only\n"
+             "  return neutral\n")},
+    {"name": "unpacking-taken-for-a-pair", "rule": "R17.1", "file": BQ,
+     "expect": "fire", "old": _FINAL,
+     "new": ("  if len(expr_set) > 2:\n"
+             "    return result_type(expr_set)\n"
+             "  if expr_set:\n"
+             "    (only,) = expr_set\n"
+             "    return only\n"
+             "  return skip_term\n")},
     {"name": "unknown-idiom-any-comprehension", "rule": "R17.1", "file": BQ, "expect": "error",
      "old": _LOOP,
      "new": ("  exprs = list(exprs)\n"
@@ -1264,6 +1360,10 @@ VARIANTS = [
      "edits": _and_build("TRUE", "FALSE")},
     {"name": "classmethod-builder-members-not-simplified", "rule": "R17.2", "expect": "fire",
      "edits": _and_build("FALSE", "TRUE", members="e for e in self.exprs")},
+    {"name": "classmethod-builder-behind-a-decorator", "rule": "R17.2", "expect": "error",
+     "edits": [(f, o, n.replace("  @classmethod\n  def _build",
+                                "  @classmethod\n  @functools.cache\n  def _build"))
+               for f, o, n in _and_build("FALSE", "TRUE")]},
     {"name": "classmethod-builder-of-the-other-class", "rule": "R17.2", "expect": "fire",
      "edits": _and_build("FALSE", "TRUE")[:2] + [
          (BQ, "  return simplify_exprs(exprs, _And, FALSE, TRUE)",
@@ -1355,6 +1455,17 @@ VARIANTS = [
      "edits": [(f, o, n.replace("    self.exprs = exprs\n", "    self.exprs = frozenset()\n"))
                for f, o, n in _and_base(
                    "    return self.__class__ == other.__class__ and self.exprs == other.exprs\n")]},
+    {"name": "twin-_And-eq-guard-clause", "rule": "R17.4", "file": BQ, "expect": "silent",
+     "old": _AND_EQ,
+     "new": ("  def __eq__(self, other):\n"
+             "    if self.__class__ is not other.__class__:\n      return False\n"
+             "    return self.exprs == other.exprs\n\n"
+             "  def __repr__(self):\n    return f\"And(")},
+    {"name": "_And-eq-guard-clause-after-field-read", "rule": "R17.4", "file": BQ,
+     "expect": "fire", "old": _AND_EQ,
+     "new": ("  def __eq__(self, other):\n"
+             "    return self.exprs == other.exprs and type(self) == type(other)\n\n"
+             "  def __repr__(self):\n    return f\"And(")},
     # R17.5
     {"name": "second-TRUE-instance", "rule": "R17.5", "file": BQ, "expect": "fire",
      "old": "    self.ground_truth = TRUE\n    self.assignments = None",
